@@ -53,6 +53,17 @@ var n1Shapes = map[string]callShape{
 	"join": {"Patient.name.given", []string{"','"}},
 }
 
+// argument counts per specification (N1 §5–6, FHIR extension(), and the experimental join)
+var specArities = map[string][]int{
+	"empty": {0}, "exists": {0, 1}, "all": {1}, "allTrue": {0}, "anyTrue": {0}, "allFalse": {0}, "anyFalse": {0}, "subsetOf": {1}, "supersetOf": {1}, "count": {0}, "distinct": {0}, "isDistinct": {0},
+	"where": {1}, "select": {1}, "repeat": {1}, "ofType": {1}, "single": {0}, "first": {0}, "last": {0}, "tail": {0}, "skip": {1}, "take": {1}, "intersect": {1}, "exclude": {1}, "union": {1}, "combine": {1},
+	"iif": {2, 3}, "toBoolean": {0}, "convertsToBoolean": {0}, "toInteger": {0}, "convertsToInteger": {0}, "toDate": {0}, "convertsToDate": {0}, "toDateTime": {0}, "convertsToDateTime": {0},
+	"toDecimal": {0}, "convertsToDecimal": {0}, "toQuantity": {0, 1}, "convertsToQuantity": {0, 1}, "toString": {0}, "convertsToString": {0}, "toTime": {0}, "convertsToTime": {0},
+	"indexOf": {1}, "substring": {1, 2}, "startsWith": {1}, "endsWith": {1}, "contains": {1}, "upper": {0}, "lower": {0}, "replace": {2}, "matches": {1}, "replaceMatches": {2}, "length": {0}, "toChars": {0},
+	"abs": {0}, "ceiling": {0}, "exp": {0}, "floor": {0}, "ln": {0}, "log": {1}, "power": {1}, "round": {0, 1}, "sqrt": {0}, "truncate": {0}, "children": {0}, "descendants": {0},
+	"trace": {1, 2}, "now": {0}, "timeOfDay": {0}, "today": {0}, "not": {0}, "extension": {1}, "join": {0, 1},
+}
+
 func runC16(c *Ctx) {
 	c.meta.Rule = "exhaustive: (N1 names ∪ base table ∪ experimental table ∪ 3 unknown names) x argument counts 0..4 x {default, WithExperimentalFuncs}; receiver and arguments well-typed per specification signature (extra arguments are the literal 1); non-trivial = the name exists in the table used; distinct by (options, name, count)"
 	c.meta.Exhaustive = true
@@ -128,6 +139,16 @@ func runC16(c *Ctx) {
 				}
 				_, inTable := table[name]
 				c.Emit(fmt.Sprintf("fcall %s %s %d", tag, name, n), out, inTable)
+				// specification arities (N1 and the experimental functions): a call with an allowed
+				// argument count of a function that is in the table is accepted
+				if ar, ok := specArities[name]; ok && inTable {
+					allowed := false
+					for _, k := range ar {
+						allowed = allowed || k == n
+					}
+					c.Law(!allowed || strings.HasPrefix(out, "accepted:"), "C16/spec-arity-rejected", "every function is reachable with each argument count its specification allows", src+" (experimental functions "+tag+")", out)
+					c.Law(allowed || !strings.HasPrefix(out, "accepted:"), "C16/extra-arity-accepted", "Compile accepts no argument count the specification does not allow", src+" (experimental functions "+tag+")", out)
+				}
 				c.Count("outcome:" + strings.SplitN(out, ":", 2)[0])
 				if cerr != nil || pan {
 					continue
